@@ -47,7 +47,9 @@ def FactsOK : Bool :=
   C26.goSets.contains ("Fail", "Failure") && C26.goSets.contains ("Skip", "Skip") && C26.goSets.contains ("Pass", "") &&
   -- the repaired conversions: an unfinished Go test is an error, nested suites are decoded, bare cases keep their names
   (C26.goSets.contains ("default", "Error") || C26.goSets.contains ("Unknown", "Error")) &&
-  C26.nestedSuiteField && C26.bareCaseFields == ["ClassName", "Name"]
+  C26.nestedSuiteField && C26.bareCaseFields == ["ClassName", "Name"] &&
+  -- toCoreTestSuite reaches nested suites by calling itself on EVERY element of TestSuites (not a worklist, not one level)
+  C26.nestedTraversal == "recursive"
 
 /-- Obligation a code change can break. -/
 theorem C26_facts_ok : FactsOK = true := by decide
@@ -273,6 +275,86 @@ theorem C26_nested_cases_reported (cs : List XCase) (inner : List (List XCase)) 
   induction inner with
   | nil => rfl
   | cons s rest ih => simp [XSuite.cases.casesList, XSuite.cases, ih]
+
+/-! #### the report as a tree of suites, nested to any depth -/
+
+/-- The traversal found in the source of this run is the recursive one. -/
+theorem traversal_recursive (s : XSuite) : s.casesMode C26.nestedTraversal = s.cases true := by
+  have h : C26.nestedTraversal = "recursive" := by decide
+  simp [XSuite.casesMode, h]
+
+theorem casesList_eq_all : ∀ l : List XSuite,
+    (∀ s ∈ l, s.cases true = s.all.map XCase.toCase) →
+    XSuite.cases.casesList true l = (XSuite.all.allList l).map XCase.toCase
+  | [], _ => rfl
+  | s :: rest, h => by
+    simp only [XSuite.cases.casesList, XSuite.all.allList, List.map_append]
+    rw [h s (by simp), casesList_eq_all rest (fun x hx => h x (by simp [hx]))]
+
+/-- The parsed cases of a suite tree are exactly the cases at every depth (structural induction over the tree). -/
+theorem C26_tree_all_cases : ∀ s : XSuite, s.casesMode C26.nestedTraversal = s.all.map XCase.toCase
+  | .mk cs nested => by
+    rw [traversal_recursive]
+    simp only [XSuite.cases, if_true, XSuite.all, List.map_append]
+    congr 1
+    apply casesList_eq_all
+    intro s hs
+    have := C26_tree_all_cases s
+    rwa [traversal_recursive] at this
+decreasing_by
+  all_goals simp_wf
+  have := List.sizeOf_lt_of_mem hs
+  omega
+
+/-- Any counter (a `countP`) over the parsed cases is the suite's own count plus the sum over its child suites, at
+    every level: tests, passes, failures, errors, skips and flakes are all sums over the tree. -/
+theorem C26_tree_counts (p : Case → Bool) (cs : List XCase) (nested : List XSuite) :
+    ((XSuite.mk cs nested).cases true).countP p
+      = (cs.map XCase.toCase).countP p + (nested.map fun n => (n.cases true).countP p).sum := by
+  simp only [XSuite.cases, if_true, List.countP_append]
+  congr 1
+  induction nested with
+  | nil => rfl
+  | cons n rest ih => simp [XSuite.cases.casesList, List.countP_append, ih]
+
+theorem C26_tree_tests (cs : List XCase) (nested : List XSuite) :
+    tests ((XSuite.mk cs nested).cases true) = cs.length + (nested.map fun n => tests (n.cases true)).sum := by
+  have h := C26_tree_counts (fun _ => true) cs nested
+  simpa [tests, List.countP_true] using h
+
+/-- A `<testcase>` lets the target pass iff its main result is neither a failure nor an error (flaky/rerun children
+    never help: they are failures and errors). -/
+theorem xcase_ok_iff (x : XCase) : (x.toCase.hasSuccess || x.toCase.hasSkip) = (!x.failure && !x.error) := by
+  have hf : ∀ n, (List.replicate n Exec.fail).any Exec.isSuccess = false := by
+    intro n; induction n <;> simp_all [List.replicate, Exec.fail, Exec.isSuccess]
+  have he : ∀ n, (List.replicate n Exec.err).any Exec.isSuccess = false := by
+    intro n; induction n <;> simp_all [List.replicate, Exec.err, Exec.isSuccess]
+  have hf' : ∀ n, (List.replicate n Exec.fail).any (·.skip) = false := by
+    intro n; induction n <;> simp_all [List.replicate, Exec.fail]
+  have he' : ∀ n, (List.replicate n Exec.err).any (·.skip) = false := by
+    intro n; induction n <;> simp_all [List.replicate, Exec.err]
+  unfold Case.hasSuccess Case.hasSkip XCase.toCase
+  simp only [List.any_cons, List.any_append, hf, he, hf', he', Bool.or_false]
+  cases x.failure <;> cases x.error <;> cases x.skipped <;> rfl
+
+/-- The target passes exactly when no test case anywhere in the tree, at whatever depth, has failed or errored. -/
+theorem C26_tree_verdict (s : XSuite) :
+    allSucceeded (s.casesMode C26.nestedTraversal) = true ↔ ∀ x ∈ s.all, x.failure = false ∧ x.error = false := by
+  rw [C26_tree_all_cases]
+  unfold allSucceeded
+  simp only [List.all_eq_true, List.mem_map, forall_exists_index, and_imp, forall_apply_eq_imp_iff₂, xcase_ok_iff,
+    Bool.and_eq_true, Bool.not_eq_true']
+
+-- non-vacuity: the only failing case sits four suites deep
+example : allSucceeded ((XSuite.mk [⟨"c", "a", false, false, false, 0, 0, 0, 0⟩]
+    [XSuite.mk [] [XSuite.mk [] [XSuite.mk [⟨"c", "deep", true, false, false, 0, 0, 0, 0⟩] []]]]).casesMode C26.nestedTraversal)
+    = false := by decide
+
+/-- A traversal that only visits the direct child suites (what a worklist that ranges over a snapshot does) loses
+    the cases three or more levels down; the verdict turns green.  (Statement about the mode "direct".) -/
+theorem C26_direct_children_only_drops_deep_cases :
+    ∃ s : XSuite, allSucceeded (s.casesMode "direct") = true ∧ allSucceeded (s.casesMode "recursive") = false :=
+  ⟨XSuite.mk [] [XSuite.mk [] [XSuite.mk [⟨"c", "deep", true, false, false, 0, 0, 0, 0⟩] []]], by decide, by decide⟩
 
 /-- Before the repair (`nestedSuiteField = false`) the cases of a `<testsuite>` nested inside a `<testsuite>`
     disappeared, here a failing one, and the verdict turned green.  (Statement about the OLD fact value.) -/
